@@ -1,9 +1,9 @@
 (** C04, end to end: the records of one wrapped exec call as a function of the configuration FILE, composed from the area
     models (System/Compose.v: Config.load -> Filter.check_chain -> Expand.log_message -> Output.action_el) and instantiated with
     every constant regenerated from the working tree.  Statements only; the general theorems are in System/Proofs.v. *)
-From Snoopy Require Import Lib.CStr Lib.Skel Config.Model Filter.Model Expand.Model Expand.Tokens Output.Model Output.Proofs System.Compose System.Proofs.
+From Snoopy Require Import Lib.CStr Lib.Skel Config.Model Filter.Model Expand.Model Expand.Tokens Output.Model Output.Proofs DsTruth.Model System.Compose System.Proofs System.Full.
 From Coq Require Import Strings.String.
-From Gen Require Import Gen_Config Gen_Filter Gen_Expand Gen_Output Gen_Errors Gen_Sys.
+From Gen Require Import Gen_Config Gen_Filter Gen_Expand Gen_Output Gen_Errors Gen_Sys Gen_Ds.
 Local Open Scope N_scope.
 
 Definition SC : sys_consts :=
@@ -62,4 +62,13 @@ output = stdout
 filter_chain = exclude_uid:0
 output = stdout
 "%string))) = bytes "stdout"%string.
+Proof. vm_compute. split; reflexivity. Qed.
+
+(** with no configuration file the compiled-in format is in force, and every tag of it names a data source of the regenerated
+    description Gen_Ds (the C12 table): the end-to-end theorems above apply to the default configuration with [known_full] / [ds_full] *)
+Example C04_sys_default_format_tags_known :
+  forallb (fun t => match t with TTag n _ => known_full Gen_Ds.gen n | TUnterminated => false | TLit _ => true end)
+          (tokens (S (List.length (message_format (settings SC None)))) (message_format (settings SC None)) []) = true
+  /\ existsb (fun t => match t with TTag _ _ => true | _ => false end)
+             (tokens (S (List.length (message_format (settings SC None)))) (message_format (settings SC None)) []) = true.
 Proof. vm_compute. split; reflexivity. Qed.
